@@ -31,17 +31,7 @@ Emit(step, expect) ==
 (***************************************************************************)
 (* Bounds on the stored set                                                *)
 (***************************************************************************)
-RootSet(x) == {RootPos(x, h) : h \in Heights(x)}
-
-\* must be stored: the roots, the remembered leaves and, for every remembered
-\* leaf, the siblings along its path (so that any subset can be proven)
-StoredLower(x, nds, C) ==
-  RootSet(x) \cup {PosOfIn(nds, c) : c \in C}
-             \cup UNION {ProofPosSet(x, {PosOfIn(nds, c)}) : c \in C}
-
-\* may be stored in addition: the ancestors of the remembered leaves
-StoredUpper(x, nds, C) ==
-  StoredLower(x, nds, C) \cup Anc(x, {PosOfIn(nds, c) : c \in C})
+\* RootSet, StoredLower and StoredUpper are defined in Forest.tla
 
 Obs(x, lv, C) ==
   LET nds == Nodes(x, lv)
